@@ -261,6 +261,42 @@ PROPS = {
     ),
 }
 
+PROPS.update({
+    'C01': dict(
+        level='proof',
+        level_text='Rocq theorems about a faithful model of LLKParser::parse_into (parser stack, lookahead via the verified eval model, '
+                   'error recovery incl. restore_terminal_strings / minimal_token_difference / adjust_token_stream): an accepted input is a '
+                   'sentence of the tables\' grammar for ARBITRARY automata that pass tables_ok, with recovery on or off and for every '
+                   'recovery oracle (C01_ll_sound); exact automata accept every sentence (C01_ll_complete); no index panic '
+                   '(C01_ll_no_panic). Tie to the code: the REAL tables parol generates (export model) must pass tables_ok; the real '
+                   'LLKParser runs on sentences, mutants, all strings up to a bound and foreign tokens, recovery on/off, and is compared with '
+                   'the model (verdict, error count, actions, tree) and with the verified recogniser on the grammar as written and on the '
+                   'transformed grammar.',
+        level_note='Trusted: Coq kernel, extraction, OCaml driver, Rust harness (alphabet scanner, export-model read-out). The composition '
+                   '"generated tables are exact for every grammar" is not one theorem: it is C05-C07/C09/C10 plus per-instance validation. '
+                   'State-dependent skip tokens are outside this model (C17).',
+        technique='Rocq proof (derivation invariant of the LL push-down automaton, for all recovery oracles) + differential run of the real parser on real generated tables',
+        streams=[dict(cmd='c01', quick=400, thorough=15000)],
+        rule='grammars: unite-k witness shapes, grammars needing k = 1..4, random clean BNF (K 1..5); inputs: random sentences, 1-2 edit '
+             'mutants, all strings up to length 3-6 over the terminals, a foreign token; recovery on/off at random (plus flipped/trimmed/'
+             'depth-limited repeats); a case = one grammar with all runs; non-trivial = a run of length >= 2 agreed with model and '
+             'recogniser; distinct = distinct case text',
+        explanation='C01_ll_sound / C01_ll_complete; D14 (unite k) and D2 (eval skipping tokens) repaired by fix: commits.',
+    ),
+    'C02': dict(
+        level='proof',
+        level_text='Rocq theorems about the same faithful model: on success the tree-builder events form a derivation tree of the input for '
+                   'the tables\' grammar rooted at the start symbol whose yield is the token list (C02_ll_tree_ok), and the semantic '
+                   'actions are called exactly once per production application, in post-order, each with exactly the children of that '
+                   'application (C02_ll_actions_postorder). Tie to the code: real action trace and real tree-builder events vs the model.',
+        level_note='Same trusted base as C01; skip tokens appear as extra leaves in the real tree and are filtered before comparison (C14).',
+        technique='Rocq proof (parse-tree-stack invariant) + differential run of the real parser',
+        streams=[dict(cmd='c01', quick=400, thorough=15000)],
+        rule='as C01; non-trivial = an accepted run with >= 2 tokens whose action trace and tree events equal the model\'s',
+        explanation='C02_ll_tree_ok, C02_ll_actions_postorder.',
+    ),
+})
+
 import lschecks
 
 PROPS.update({
